@@ -6,11 +6,16 @@ PROP = {
         "emit::span::{SpanCtxt::{current, new_child, new_root, push, new}, SpanGuard::{new, push_ctxt, start, drop}, TraceId::{random, from_value}, SpanId::{random, from_value}, completion::Default::complete}",
         "emit::Frame::{push, disabled, call}, emit_core::emit",
     ],
-    "bounds": "span trees of depth <= 1 below the root (thorough 2) with fan-out <= 2, filter verdict symbolic per node, <= 1 event per node; "
-              "incoming ids absent / typed / 32+16 hex text; counter rng (non-zero, non-repeating); harness Ctxt",
-    "outside": "the real ThreadLocalCtxt, thread hand-offs and async interleavings of sibling spans (see C03); the macro forms; deeper or wider trees",
-    "stubs": ["Ctxt = env::ArrCtxt", "rng = counter", "clock = no readings", "filter = per-node symbolic verdict"],
+    "bounds": "ONE inductive step: from an arbitrary ambient state (no ids, or any non-zero trace/span/parent ids) one span is created with a "
+              "symbolic filter verdict, run inside its frame (thorough: with an event inside) and completed through the default completion; "
+              "SpanCtxt::new_root/new_child for any counter seed; counter rng; harness Ctxt. Trees of any depth follow by composing the step with "
+              "C03's frame discipline (written argument in harness/hk_emit_min/src/c04_trace.rs); whole trees do not fit CBMC's memory (measured)",
+    "outside": "the real ThreadLocalCtxt, thread hand-offs and async interleavings of sibling spans (see C03); the macro forms; incoming ids given as "
+               "hex TEXT through the context (the text codecs themselves are decided under C15); executing whole trees",
+    "stubs": ["Ctxt = env::ArrCtxt", "rng = counter", "clock = no readings", "filter = symbolic verdict",
+              "TraceId/SpanId::try_from_hex, <u128/u64 as FromValue>::from_value -> assert-unreachable (all ids in these harnesses are typed values; "
+              "the text/integer fallbacks of from_value are dead there; CBMC cannot prune them and core::fmt does not finish)"],
     "assumptions": ["the random source does not repeat and does not return zero"],
     "level_text": "Bounded model checking of the span/trace-id logic that is generic in the context; PARTIAL (thread-local context and scheduling outside).",
-    "timeout": {"quick": 800, "thorough": 3600},
+    "timeout": {"quick": 1500, "thorough": 5400},
 }
